@@ -24,7 +24,8 @@ Scope — what is *not* proved here.  `reach_inv` is conditional on the premise 
 That the mediator's legs satisfy it ("no event is committed after the crossing time while the
 cell-boundary candidate is live", i.e. the scheduler returns the minimum and the cell-boundary
 tagger's candidate is fresh) belongs to the system model (C09 / C19) and is not formalised in this
-module; `boundary_pos` / `stays_in_cell_pos` / `boundary_neg_partial` give the kinematic half in exact
+module; `boundary_pos` / `stays_in_cell_pos` / `boundary_neg_partial` / `stays_in_cell_neg` (the negative direction closed by the
+adjacency of the recorded extents: no representable scalar between the neighbour's `cell_max` and the cell's lower edge) give the kinematic half in exact
 arithmetic (the candidate time is the crossing time; before it the unit is in its cell; the event
 puts it into the neighbour), for a velocity with a single non-zero component.  The tie case (another
 event at exactly the crossing time that changes the active unit) and binary64 rounding of the time
@@ -462,5 +463,120 @@ example : let r := timeToBoundary Ops.rat exGrid.L (1 / 6) (-2) 0 (99 / 100)
     (by norm_num [Grid.cmin, exGrid]) (by norm_num [Grid.cmin, exGrid])
   ⟨h.1, h.2.1, h.2.2.1⟩
 
+
+/-- **Cell-boundary event, negative direction, closed by the adjacency of the recorded extents.**
+`F` is the set of representable scalars (any set). `CuboidCells.__init__` nudges `cell_max` of the lower neighbour to the
+scalar directly below `cell_min` of cell `i` (C16 part D, `cells_abut`: `next_up(cell_max) = cell_min`), i.e. **no representable
+scalar lies strictly between them** — hypothesis `hgap` (for `i = 0` the neighbour is the last cell and the statement is
+`last_cell_reaches_top`: no representable scalar in `(cell_max, L)`). Then the sliver that made `boundary_neg_partial` partial is
+empty: every *representable* time-sliced coordinate `correct_position_entry(x + v τ)` observed strictly before the scheduled
+cell-boundary time is still in the recorded cell `i`. -/
+theorem stays_in_cell_neg (g : Grid) (i : ℕ) (hi : i < g.n) (hn2 : 2 ≤ g.n) (x v bMin cmaxPrev : ℚ)
+    (hx0 : g.cmin i ≤ x) (hx1 : x < g.cmin (i + 1)) (hv : v < 0)
+    (hc0 : g.cmin ((i + g.n - 1) % g.n) ≤ cmaxPrev) (hc1 : cmaxPrev < g.cmin ((i + g.n - 1) % g.n + 1))
+    (F : ℚ → Prop) (hgap : ∀ y, F y → cmaxPrev < y → g.cmin ((i + g.n - 1) % g.n + 1) ≤ y)
+    (τ : ℚ) (h0 : 0 ≤ τ) (h1 : τ < (timeToBoundary Ops.rat g.L x v bMin cmaxPrev).1)
+    (hF : F (pywrap Ops.rat (x + v * τ) g.L)) :
+    g.idx (pywrap Ops.rat (x + v * τ) g.L) = i := by
+  obtain ⟨hpos, hr2, _, hland, hstay, _⟩ := boundary_neg_partial g i hi hn2 x v bMin cmaxPrev hx0 hx1 hv hc0 hc1
+  set r := timeToBoundary Ops.rat g.L x v bMin cmaxPrev with hr
+  have hs := g.hside
+  have hn0 : (0 : ℚ) < g.n := by exact_mod_cast g.hn
+  have hL : 0 < g.L := by simp only [Grid.L]; positivity
+  have hxL : x < g.L := by
+    have : ((i + 1 : ℕ) : ℚ) ≤ g.n := by exact_mod_cast hi
+    simp only [Grid.cmin, Grid.L] at hx1 ⊢; nlinarith
+  have hx00 : 0 ≤ x := le_trans (by simp only [Grid.cmin]; positivity) hx0
+  -- the straight-line coordinate is strictly above where it lands at the event time
+  have habove : x + v * r.1 < x + v * τ := by nlinarith
+  have hlt : x + v * τ ≤ x := by nlinarith
+  rcases Nat.eq_zero_or_pos i with hi0 | hip
+  · -- cell 0: the neighbour is the last cell, the line crosses 0 and wraps
+    subst hi0
+    have hj : (0 + g.n - 1) % g.n = g.n - 1 := by rw [Nat.zero_add]; exact Nat.mod_eq_of_lt (by omega)
+    have hjn : g.n - 1 + 1 = g.n := by omega
+    rw [hj, hjn] at hgap hc1
+    rw [hj] at hc0
+    have hcp : 0 ≤ cmaxPrev := le_trans (by simp only [Grid.cmin]; positivity) hc0
+    rw [hr2] at hland
+    have hcL : g.cmin g.n = g.L := by simp [Grid.cmin, Grid.L]
+    rw [hcL] at hgap hc1
+    have hc00 : g.cmin 0 = 0 := by simp [Grid.cmin]
+    by_cases hneg : x + v * τ < 0
+    · -- wrapped coordinate y = x + vτ + L ∈ (cmaxPrev, L): excluded by the gap
+      exfalso
+      have hw : pywrap Ops.rat (x + v * τ) g.L = x + v * τ + g.L := by
+        rw [pywrap_rat_pos _ _ hL]
+        have : ⌊(x + v * τ) / g.L⌋ = -1 := by
+          rw [Int.floor_eq_iff]
+          constructor
+          · rw [le_div_iff₀ hL]; push_cast
+            rcases hland with h | h <;> linarith
+          · rw [div_lt_iff₀ hL]; push_cast; nlinarith
+        rw [this]; push_cast; ring
+      rw [hw] at hF
+      have hgt : cmaxPrev < x + v * τ + g.L := by
+        rcases hland with h | h <;> linarith
+      have := hgap _ hF hgt
+      linarith
+    · have hneg := not_lt.mp hneg
+      have hid : pywrap Ops.rat (x + v * τ) g.L = x + v * τ := by
+        rw [pywrap_rat_pos _ _ hL]
+        have : ⌊(x + v * τ) / g.L⌋ = 0 := by
+          rw [Int.floor_eq_iff]
+          refine ⟨by simpa using div_nonneg hneg hL.le, ?_⟩
+          rw [div_lt_iff₀ hL]; simp; linarith
+        rw [this]; simp
+      rw [hid]
+      exact g.idx_eq hi (by rw [hc00]; exact hneg) (lt_of_le_of_lt hlt hx1)
+  · have hj : (i + g.n - 1) % g.n = i - 1 := by
+      have : i + g.n - 1 = (i - 1) + g.n := by omega
+      rw [this, Nat.add_mod_right]; exact Nat.mod_eq_of_lt (by omega)
+    have hji : i - 1 + 1 = i := by omega
+    rw [hj] at hc0; rw [hj, hji] at hc1 hgap
+    have hcp : 0 ≤ cmaxPrev := le_trans (by simp only [Grid.cmin]; positivity) hc0
+    -- no wrap here: the landing point is cmaxPrev ≥ 0 itself
+    have hland' : x + v * r.1 = cmaxPrev := by
+      rcases hland with h | h
+      · rw [hr2] at h; exact h
+      · exfalso
+        -- landing at cmaxPrev - L would need the wrapped branch, impossible since x - cmaxPrev ≥ 0
+        have hnv : ¬ (0 : ℚ) < v := by linarith
+        have hnot : ¬ x - cmaxPrev < 0 := by linarith
+        have hr1 : r.1 = (x - cmaxPrev) / (-v) := by
+          simp only [hr, timeToBoundary, rat_ofInt, Int.cast_zero, hnv, if_false, hnot]
+        rw [hr2] at h
+        have hne : v ≠ 0 := by linarith
+        rw [hr1] at h
+        have : x + v * ((x - cmaxPrev) / -v) = cmaxPrev := by field_simp; ring
+        linarith
+    have hnn : 0 ≤ x + v * τ := by linarith
+    have hid : pywrap Ops.rat (x + v * τ) g.L = x + v * τ := by
+      rw [pywrap_rat_pos _ _ hL]
+      have : ⌊(x + v * τ) / g.L⌋ = 0 := by
+        rw [Int.floor_eq_iff]
+        refine ⟨by simpa using div_nonneg hnn hL.le, ?_⟩
+        rw [div_lt_iff₀ hL]; simp; linarith
+      rw [this]; simp
+    rw [hid] at hF ⊢
+    have hge := hgap _ hF (by linarith)
+    exact g.idx_eq hi hge (lt_of_le_of_lt hlt hx1)
+
+
+/-- non-vacuity of `stays_in_cell_neg`: three cells of side 1/3, unit in cell 0 moving down, scalars = hundredths; the last cell's
+`cell_max` is 99/100 and no hundredth lies in (99/100, 1) -/
+example : exGrid.idx (pywrap Ops.rat (1 / 10 + (-2) * (1 / 50)) exGrid.L) = 0 :=
+  stays_in_cell_neg exGrid 0 (by decide) (by decide) (1 / 10) (-2) 0 (99 / 100)
+    (by norm_num [Grid.cmin, exGrid]) (by norm_num [Grid.cmin, exGrid]) (by norm_num)
+    (by norm_num [Grid.cmin, exGrid]) (by norm_num [Grid.cmin, exGrid])
+    (fun y => ∃ k : ℤ, y = k / 100)
+    (by
+      rintro y ⟨k, rfl⟩ h
+      have h' : (99 : ℚ) < k := by linarith
+      have : (100 : ℤ) ≤ k := by exact_mod_cast (by exact_mod_cast h' : (99 : ℤ) < k)
+      have : (100 : ℚ) ≤ k := by exact_mod_cast this
+      norm_num [Grid.cmin, exGrid]; linarith)
+    (1 / 50) (by norm_num) (by norm_num [timeToBoundary, Grid.L, exGrid])
+    ⟨6, by norm_num [pywrap_rat_pos, Grid.L, exGrid]⟩
 
 end JF.C11
